@@ -78,7 +78,7 @@ def mk_client(u):
     it = u.it
     cl = Obj(u.cls(CLIENT, "Client"), tag="client")
     cl.fields["socket_timeout"] = LazyOpt(it, "real", "socket_timeout", lambda v: v.t > 0)
-    cl.fields["throttle"] = Obj(u.cls(COMMON, "StreamThrottle"), tag="client_throttle")
+    cl.fields["throttle"] = it.call(it.getattr_(u.cls(COMMON, "StreamThrottle"), "from_limits"), [], {})
     cl.fields["encoding"] = "utf-8"
     return cl
 
@@ -128,6 +128,22 @@ def get_stream_post(S):
 
 
 c.ensures(get_stream_post, "passive-then-REST-iff-offset-then-verb-and-the-stream-wraps-that-socket")
+
+
+def _same(it, a, b):
+    return it.unbox(a) is it.unbox(b) or it.eq_term(it.unbox(a), it.unbox(b)) is True
+
+
+def stream_wired_to_client(S, st):
+    """C15/C16 wiring: the only throttle of a client stream is the client's own StreamThrottle object (so the control
+    and every data stream are limited together); both I/O timeouts are the client's socket_timeout"""
+    it = S.it
+    cl = S.vars["self"]
+    th = st.fields["throttles"]
+    return bool(isinstance(th, dict) and list(th) == ["_"] and th["_"] is cl.fields["throttle"] and _same(it, st.fields["read_timeout"], cl.fields["socket_timeout"]) and _same(it, st.fields["write_timeout"], cl.fields["socket_timeout"]))
+
+
+c.ensures(lambda S: stream_wired_to_client(S, S.result), "data-stream-is-limited-by-the-client's-one-throttle-and-uses-socket_timeout", props=["C15", "C16"])
 
 
 # ---- DataConnectionThrottleStreamIO.__aexit__ / finish
@@ -238,3 +254,83 @@ def upload_loop_havoc(it, env):
 # the block has no enclosing function frame: its loop contract is looked up through the unit (ordinal -1)
 c.env_hooks = {"block_loop": LoopSpec(invariants=[("sent-so-far-is-exactly-what-was-read", upload_loop_inv)], havoc=upload_loop_havoc)}
 c.ensures(lambda S: S.vars["writer"].written == S.vars["content"].t, "every-byte-of-the-file-is-sent-once-in-order")
+
+
+
+# ------------------------------------------------------------------------------------ client wiring (C15 / C16)
+def setup_client_init(u):
+    it = u.it
+    rl, wl = LazyOpt(it, "int", "read_speed_limit", lambda v: v.t >= 0), LazyOpt(it, "int", "write_speed_limit", lambda v: v.t >= 0)
+    st = LazyOpt(it, "real", "socket_timeout", lambda v: v.t > 0)
+    made = []
+
+    def factory(i, a, k):
+        o = Obj(u.cls("aioftp.pathio", "AbstractPathIO"), tag="path_io")
+        made.append((o, k))
+        return o
+
+    kwargs = {"read_speed_limit": rl, "write_speed_limit": wl, "socket_timeout": st, "path_io_factory": Builtin("factory", factory)}
+    return Builtin("BaseClient(...)", lambda i, a, k: i.call(u.cls(CLIENT, "BaseClient"), [], kwargs)), [], {}, {"rl": rl, "wl": wl, "st": st}
+
+
+c = contract(CLIENT, "BaseClient.__init__", props=["C15", "C16"])
+c.setup = setup_client_init
+
+
+def client_init_post(S):
+    it = S.it
+    cl = S.result
+    th = cl.fields["throttle"]
+    ok = isinstance(th, Obj) and th.cls.name == "StreamThrottle" and th.fields["read"] is not th.fields["write"]
+    ok = ok and _same(it, th.fields["read"].fields["_limit"], S.vars["rl"]) and _same(it, th.fields["write"].fields["_limit"], S.vars["wl"])
+    return bool(ok and _same(it, cl.fields["socket_timeout"], S.vars["st"]) and cl.fields["stream"] is None)
+
+
+c.ensures(client_init_post, "one-throttle-per-client-with-read-limit-on-read-and-write-limit-on-write")
+
+
+def setup_connect(u):
+    it = u.it
+    cl = mk_client(u)
+    cl.fields["connection_timeout"] = LazyOpt(it, "real", "connection_timeout", lambda v: v.t > 0)
+    pair = []
+
+    def open_conn(i, a, k):
+        def run():
+            i.suspend("open_connection")
+            if i.ctx.choose(2, "connect-outcome") == 1:
+                i.throw("OSError")
+            r, w = Reader("control"), Writer("control")
+            pair.append((r, w, a))
+            return (r, w)
+
+        return Coro(run, "open_connection")
+
+    cl.fields["_open_connection"] = Builtin("open_connection", open_conn)
+    host, port = fresh("str", "host"), fresh("int", "port")
+    # (Client.connect = this + reading the greeting through command())
+    return it.getattr_(u.cls(CLIENT, "BaseClient"), "connect"), [cl, host, port], {}, {"self": cl, "host": host, "port": port, "pair": pair}
+
+
+c = contract(CLIENT, "BaseClient.connect", props=["C15", "C16"])
+c.setup = setup_connect
+c.raises_("OSError")
+c.raises_("TimeoutError")
+c.raises_("CancelledError")
+
+
+def connect_post(S):
+    it = S.it
+    cl = S.vars["self"]
+    st = cl.fields["stream"]
+    pair = S.vars["pair"]
+    if len(pair) != 1 or not isinstance(st, Obj):
+        return False
+    r, w, a = pair[0]
+    scopes = [e for e in it.ctx.events if e[0] == "wait_for"]
+    ct = it.unbox(cl.fields["connection_timeout"])
+    timed = (ct is None and not scopes) or (ct is not None and len(scopes) == 1 and scopes[0][1] is ct)
+    return bool(st.fields["reader"] is r and st.fields["writer"] is w and a[0] is S.vars["host"] and a[1] is S.vars["port"] and stream_wired_to_client(S, st) and timed)
+
+
+c.ensures(connect_post, "control-stream-wraps-the-new-socket-is-limited-by-the-client's-throttle-and-the-connect-is-bounded-by-connection_timeout")
